@@ -5,5 +5,10 @@ PROPS = {"C06": "model_checking"}
 
 
 def run(ctx):
+    import os
+    keep = ["conn.go", "writer.go"]
+    if os.path.exists(os.path.join(os.path.dirname(__file__), "transport.py")):
+        keep.append("transport.go")
+    ctx.vh_keep = keep
     cov = conn.run_part(ctx, "C06")
     return cov
